@@ -1,0 +1,12 @@
+//! Facade used by the external verification harnesses.
+//!
+//! This module only exists under `cfg(kani)` / `cfg(mmtk_verif)`. It re-exports items that are `pub`
+//! but live in modules an external crate cannot name, and forwards (one call expression per
+//! wrapper, no logic) to the small `verif_hooks` child modules placed at the end of files whose
+//! items are module-private. Nothing here is used by normal builds.
+#![allow(missing_docs, clippy::missing_docs_in_private_items)]
+
+pub use crate::util::alloc::allocator::{
+    align_allocation, align_allocation_inner, align_allocation_no_fill, get_maximum_aligned_size,
+    get_maximum_aligned_size_inner,
+};
